@@ -299,6 +299,18 @@ func runC03(c *Ctx) {
 	}
 
 	// R5
+	// a retry arms the global timer itself when the request was never marked as sent
+	retryArmsWhenNotSent := false
+	if dr := c.M(pkg, "downStream", "doRetry"); dr != nil {
+		for _, cs := range callsIn(dr, false, func(cc *ssa.CallCommon) bool { return methodName(cc) == "onUpstreamRequestSent" }) {
+			for _, g := range guardsAt(cs.Instr.Block()) {
+				if _, f, _, ok := loadedField(g.Cond); ok && f == "upstreamRequestSent" && !g.True {
+					retryArmsWhenNotSent = true
+				}
+			}
+		}
+		c.Check("C03.R5", funcKey(dr)+":retry-arms-when-not-sent", dr.Pos(), retryArmsWhenNotSent, "doRetry calls onUpstreamRequestSent when the request was not marked as sent", "doRetry no longer arms the global timer for a request whose first try failed before it was completely sent: the retry runs with no global deadline")
+	}
 	for _, m := range []string{"receiveHeaders", "receiveData", "receiveTrailers"} {
 		fn := c.M(pkg, "downStream", m)
 		if fn == nil {
@@ -332,7 +344,16 @@ func runC03(c *Ctx) {
 					return true
 				}
 				ifi, isIf := from.Instrs[len(from.Instrs)-1].(*ssa.If)
-				if !isIf || ifi.Cond != ssa.Value(fn.Params[1]) {
+				if !isIf {
+					return true
+				}
+				// "the stream is finished" (processDone): nothing more of this try is sent; it ends now or is retried, and
+				// doRetry arms the timers of a request that was never marked as sent (repair bafefc293, obligation
+				// retry-arms-when-not-sent below). Seed C03-5 became harmless by that repair.
+				if call, isC := ifi.Cond.(*ssa.Call); isC && methodName(call.Common()) == "processDone" && retryArmsWhenNotSent {
+					return from.Succs[0] != to
+				}
+				if ifi.Cond != ssa.Value(fn.Params[1]) {
 					return true
 				}
 				return from.Succs[0] == to // endStream is true
@@ -613,10 +634,12 @@ func guardedNotCASFail(in ssa.Instruction, field string) bool {
 // It is set when a retry is granted and must be cleared in the same step in which processError turns it into the Retry
 // phase; if it stays set across the retry interval and host selection, a global timeout that fires in that window is
 // swallowed after it has already won upstreamResponseReceived - the client gets no reply at all.
-func c03RetryFlag(c *Ctx, pkg string) {
+func c03RetryFlag(c *Ctx, pkg string) { c03RetryFlagRule(c, pkg, "C03.R8") }
+
+func c03RetryFlagRule(c *Ctx, pkg, rule string) {
 	fn := c.M(pkg, "downStream", "processError")
 	if fn == nil {
-		c.Unresolved("C03.R8", "downStream.processError")
+		c.Unresolved(rule, "downStream.processError")
 		return
 	}
 	fk := funcKey(fn)
@@ -643,10 +666,10 @@ func c03RetryFlag(c *Ctx, pkg string) {
 				}
 			}
 		}
-		c.Check("C03.R8", fmt.Sprintf("%s:retry-flag-consumed#%d", fk, n), in.Pos(), cleared, "setupRetry is cleared on the edge that turns it into the Retry phase", "processError acts on setupRetry without clearing it: the abandoned try stays deaf during the retry interval and host selection, and a timeout or reset that fires in that window is swallowed after it has taken the response token - the request ends without any reply")
+		c.Check(rule, fmt.Sprintf("%s:retry-flag-consumed#%d", fk, n), in.Pos(), cleared, "setupRetry is cleared on the edge that turns it into the Retry phase", "processError acts on setupRetry without clearing it: the abandoned try stays deaf during the retry interval and host selection, and a timeout or reset that fires in that window is swallowed after it has taken the response token - the request ends without any reply")
 	}
 	if n < 1 {
-		c.Unresolved("C03.R8", "Retry return gated by setupRetry in processError")
+		c.Unresolved(rule, "Retry return gated by setupRetry in processError")
 	}
 	// single setter: only setupRetry() raises the flag, and it does so behind the CAS that gives the response token back
 	var setters []string
@@ -658,7 +681,7 @@ func c03RetryFlag(c *Ctx, pkg string) {
 		}
 	}
 	sort.Strings(setters)
-	c.Check("C03.R8", "pkg/proxy.upstreamRequest.setupRetry:single-setter", token.NoPos, len(setters) == 1 && setters[0] == "setupRetry", "only downStream.setupRetry raises the flag", "setupRetry is raised by "+strings.Join(setters, ","))
+	c.Check(rule, "pkg/proxy.upstreamRequest.setupRetry:single-setter", token.NoPos, len(setters) == 1 && setters[0] == "setupRetry", "only downStream.setupRetry raises the flag", "setupRetry is raised by "+strings.Join(setters, ","))
 }
 
 // c03WinnerProduces (R2): whoever takes the response token produces the outcome.
